@@ -467,6 +467,55 @@ func runC19(ctx *core.Ctx) {
 			})
 		}
 	}
+	// long strings: documented examples / keywords concatenated or repeated, with 0-4 random edits
+	// drawn from the whole alphabet (reaches lengths and positions the exhaustive part cannot)
+	for mi := range ms {
+		m := &ms[mi]
+		re := m.re()
+		alpha := append(append([]string{}, m.alphabet...), c19Hostile...)
+		ctx.Run("long:"+m.name, ctx.N(64, 512), func(cs *core.Case) {
+			r := cs.R
+			lc := core.LocalCounts{}
+			for k := 0; k < 4000; k++ {
+				s := m.examples[r.Intn(len(m.examples))]
+				switch r.Intn(4) {
+				case 0:
+					s += m.examples[r.Intn(len(m.examples))]
+				case 1:
+					s += alpha[r.Intn(len(alpha))] + m.examples[r.Intn(len(m.examples))]
+				case 2:
+					s = strings.Repeat(s, 1+r.Intn(3))
+				}
+				for e := r.Intn(5); e > 0; e-- {
+					p := r.Intn(len(s) + 1)
+					a := alpha[r.Intn(len(alpha))]
+					switch r.Intn(3) {
+					case 0:
+						s = s[:p] + a + s[p:]
+					case 1:
+						if p < len(s) {
+							s = s[:p] + a + s[p+1:]
+						}
+					default:
+						if p < len(s) {
+							s = s[:p] + s[p+1:]
+						}
+					}
+				}
+				cs.Eval()
+				lc["long_strings_tried"]++
+				if re.MatchString(s) {
+					lc["accepted_by_matcher"]++
+					cs.Nontrivial(core.Hash(m.name, s))
+					if !m.rec(s) {
+						cs.Violate(c19Signature(m, s), fmt.Sprintf("%s accepts %q which is not of its documented form", m.name, s), map[string]interface{}{"matcher": m.name, "value": core.Show(s)})
+					}
+				}
+			}
+			cs.Flush(lc)
+		})
+	}
+	ctx.Floor("long_strings_tried", 100000)
 	ctx.MinNontrivial(200)
 	ctx.Floor("strings_enumerated", 100000)
 	ctx.Floor("mutants_tried", 10000)
